@@ -13,6 +13,7 @@ func init() { families = append(families, factsIndex) }
 func factsIndex() {
 	factsC13()
 	factsC12()
+	factsC16()
 }
 
 // writeArgs lists, in source order, the first argument of every call of the form
@@ -75,4 +76,95 @@ func factsC12() {
 		firstIfCond(body(fn(f, "diffVarintPostings", "Seek")), ">="))
 	emitStr("postingsStreamedSeekGuard", "pkg/store/postings_codec.go streamedDiffVarintPostings.Seek: the guard before scanning",
 		firstIfCond(body(fn(f, "streamedDiffVarintPostings", "Seek")), ">="))
+}
+
+// lockSkeleton lists, in source order, the operations of a LazyBinaryReader method that matter for
+// the lock protocol: RLock/RUnlock/Lock/Unlock on r.readerMx (wrapped in "defer(" … ")" when
+// deferred), tests of r.reader, assignments to r.reader, NewBinaryReader, r.load(), r.reader.Close()
+// and any other call on r.reader ("use").
+func lockSkeleton(fd *ast.FuncDecl) []string {
+	if fd == nil || fd.Body == nil {
+		return nil
+	}
+	var out []string
+	var walk func(n ast.Node)
+	walk = func(n ast.Node) {
+		ast.Inspect(n, func(n ast.Node) bool {
+			switch x := n.(type) {
+			case *ast.DeferStmt:
+				out = append(out, "defer(")
+				if fl, ok := x.Call.Fun.(*ast.FuncLit); ok {
+					walk(fl.Body)
+				} else {
+					walk(x.Call)
+				}
+				out = append(out, ")")
+				return false
+			case *ast.IfStmt:
+				if x.Init != nil {
+					walk(x.Init)
+				}
+				if c := text(x.Cond); strings.Contains(c, "r.reader ") || strings.HasSuffix(c, "r.reader") {
+					out = append(out, "if("+c+")")
+				}
+				walk(x.Body)
+				if x.Else != nil {
+					walk(x.Else)
+				}
+				return false
+			case *ast.AssignStmt:
+				if len(x.Lhs) == 1 && text(x.Lhs[0]) == "r.reader" && len(x.Rhs) == 1 {
+					out = append(out, "reader="+text(x.Rhs[0]))
+					return false
+				}
+			case *ast.CallExpr:
+				name := callName(x)
+				switch {
+				case strings.HasPrefix(name, "r.readerMx."):
+					out = append(out, strings.TrimPrefix(name, "r.readerMx."))
+				case name == "r.load":
+					out = append(out, "load")
+				case name == "NewBinaryReader":
+					out = append(out, "NewBinaryReader")
+				case name == "r.reader.Close":
+					out = append(out, "Close")
+				case strings.HasPrefix(name, "r.reader."):
+					out = append(out, "use")
+				}
+			}
+			return true
+		})
+	}
+	walk(fd.Body)
+	return out
+}
+
+func factsC16() {
+	f := parse("pkg/block/indexheader/lazy_binary_reader.go")
+	var methods []string
+	for _, m := range []string{"IndexVersion", "PostingsOffsets", "PostingsOffset", "LookupSymbol", "LabelValues", "LabelNames"} {
+		methods = append(methods, m+": "+strings.Join(lockSkeleton(fn(f, "LazyBinaryReader", m)), " "))
+	}
+	emitList("lazyMethodSkeletons", "pkg/block/indexheader/lazy_binary_reader.go: lock skeleton of every Reader method", methods)
+	emitList("lazyLoadSkeleton", "pkg/block/indexheader/lazy_binary_reader.go load()", lockSkeleton(fn(f, "LazyBinaryReader", "load")))
+	emitList("lazyUnloadSkeleton", "pkg/block/indexheader/lazy_binary_reader.go unloadIfIdleSince()", lockSkeleton(fn(f, "LazyBinaryReader", "unloadIfIdleSince")))
+	emitList("lazyIsIdleSkeleton", "pkg/block/indexheader/lazy_binary_reader.go isIdleSince()", lockSkeleton(fn(f, "LazyBinaryReader", "isIdleSince")))
+	// which results of Reader methods are handed out as they come from the loaded header
+	// (a direct `return r.reader.X(...)`), per method
+	var direct []string
+	for _, m := range []string{"IndexVersion", "PostingsOffsets", "PostingsOffset", "LookupSymbol", "LabelValues", "LabelNames"} {
+		fd := fn(f, "LazyBinaryReader", m)
+		if fd == nil || fd.Body == nil {
+			continue
+		}
+		ast.Inspect(fd.Body, func(n ast.Node) bool {
+			if r, ok := n.(*ast.ReturnStmt); ok && len(r.Results) == 1 {
+				if c, ok := r.Results[0].(*ast.CallExpr); ok && strings.HasPrefix(callName(c), "r.reader.") {
+					direct = append(direct, m)
+				}
+			}
+			return true
+		})
+	}
+	emitList("lazyDirectReturns", "pkg/block/indexheader/lazy_binary_reader.go: Reader methods that return the loaded header's result as it is", direct)
 }
